@@ -5,12 +5,14 @@ import (
 	"errors"
 	"fmt"
 	"net"
+	"os"
 	"sync"
 	"time"
 
 	"go.sia.tech/core/gateway"
 	"go.sia.tech/core/types"
 	"go.sia.tech/coreutils/syncer"
+	"go.uber.org/zap"
 
 	"verif/kit"
 )
@@ -72,6 +74,11 @@ func StartSyncer(node *kit.Node, cfg NodeConfig) (*SyncerNode, error) {
 		n.CM.SampleWork()
 	})
 	opts := append([]syncer.Option{syncer.WithDialer(SrcDialer{IP: cfg.IP})}, cfg.Opts...)
+	if os.Getenv("VERIF_NET_LOG") != "" { // debugging aid
+		if lg, err := zap.NewDevelopment(); err == nil {
+			opts = append(opts, syncer.WithLogger(lg.Named(cfg.Name)))
+		}
+	}
 	n.S = syncer.New(l, n.CM, n.Store, gateway.Header{GenesisID: node.Tree.Genesis.ID(), UniqueID: cfg.UID, NetAddress: l.Addr().String()}, opts...)
 	if !cfg.NoRun {
 		go func() { n.RunErr <- n.S.Run() }()
